@@ -4,3 +4,4 @@ pub mod c19;
 pub mod c09;
 pub mod c07;
 pub mod c20;
+pub mod c15;
